@@ -22,6 +22,8 @@ import (
 	"sync"
 	"testing/synctest"
 
+	"github.com/cespare/xxhash/v2"
+
 	"github.com/wundergraph/graphql-go-tools/v2/pkg/engine/datasource/graphql_datasource"
 	"github.com/wundergraph/graphql-go-tools/v2/pkg/engine/resolve"
 
@@ -420,6 +422,7 @@ func runPair(a, b setup) (string, []idFinding, bool) {
 
 // triggerIdentity is part E (see the file comment).
 func triggerIdentity(run *vk.Run, expired func() bool) {
+	defer createHookPart(run, expired)
 	items := menu()
 	run.Bound("E:menu_items", len(items))
 	run.Bound("E:ordered_pairs", len(items)*len(items))
@@ -497,5 +500,287 @@ func triggerIdentity(run *vk.Run, expired func() bool) {
 	sort.Strings(ks)
 	for _, k := range ks {
 		run.Count("E:outcome "+k, classes[k])
+	}
+}
+
+// ---------------------------------------------------------------------------
+// Part E2: start hooks that REWRITE the upstream input (HookablePubsubDatasource.
+// SubscriptionOnCreate), synchronous and asynchronous entry point. The sharing
+// identity must be the input the upstream is started with: two live subscribers
+// share one upstream iff their inputs are equal AFTER the hook.
+
+const hkScen = "E-create-hook"
+
+type hkStart struct {
+	n     int
+	input string
+	up    resolve.SubscriptionUpdater
+}
+
+type hkTenant struct{}
+
+// hookSource rewrites the input in SubscriptionOnCreate: mode bit 0 drops the
+// member "x" (normalises), mode bit 1 adds the tenant found in the request context.
+type hookSource struct {
+	mode   int
+	mu     sync.Mutex
+	starts []*hkStart
+}
+
+func hkRewrite(mode int, input []byte, tenant string) []byte {
+	var m map[string]any
+	d := json.NewDecoder(strings.NewReader(string(input)))
+	d.UseNumber()
+	if err := d.Decode(&m); err != nil {
+		return input
+	}
+	if mode&1 != 0 {
+		delete(m, "x")
+	}
+	if mode&2 != 0 {
+		m["tenant"] = tenant
+	}
+	if mode == 0 {
+		return input
+	}
+	b, _ := json.Marshal(m) // keys sorted: canonical
+	return b
+}
+
+func (s *hookSource) HashTriggerInput(input []byte, xxh *xxhash.Digest) error {
+	_, err := xxh.Write(input)
+	return err
+}
+func (s *hookSource) Start(ctx *resolve.Context, h http.Header, input []byte, up resolve.SubscriptionUpdater) error {
+	s.mu.Lock()
+	s.starts = append(s.starts, &hkStart{n: len(s.starts) + 1, input: string(input), up: up})
+	s.mu.Unlock()
+	return nil
+}
+func (s *hookSource) SubscriptionOnStart(ctx resolve.StartupHookContext, input []byte) error {
+	return nil
+}
+func (s *hookSource) SubscriptionOnCreate(ctx context.Context, input []byte) ([]byte, error) {
+	tenant, _ := ctx.Value(hkTenant{}).(string)
+	return hkRewrite(s.mode, input, tenant), nil
+}
+
+type hkSub struct {
+	Input  string
+	Tenant string
+	Sync   bool
+}
+
+func hkPlan(in string, src resolve.SubscriptionDataSource) *resolve.GraphQLSubscription {
+	return &resolve.GraphQLSubscription{
+		Trigger: resolve.GraphQLSubscriptionTrigger{Source: src, SourceName: "sg",
+			InputTemplate:  resolve.InputTemplate{Segments: []resolve.TemplateSegment{{SegmentType: resolve.StaticSegmentType, Data: []byte(in)}}},
+			PostProcessing: resolve.PostProcessingConfiguration{SelectResponseDataPath: []string{"data"}, SelectResponseErrorsPath: []string{"errors"}}},
+		Response: &resolve.GraphQLResponse{Data: &resolve.Object{Fields: []*resolve.Field{{Name: []byte("v"), Value: &resolve.String{Path: []string{"v"}}}}},
+			Fetches: resolve.Sequence(), Info: &resolve.GraphQLResponseInfo{}},
+	}
+}
+
+func runHookPair(mode int, a, b hkSub) (string, []idFinding) {
+	rctx, cancel := context.WithCancel(context.Background())
+	r := resolve.New(rctx, resolve.ResolverOptions{MaxConcurrency: 8, AsyncErrorWriter: idErrWriter{}})
+	src := &hookSource{mode: mode}
+	subs := []hkSub{a, b}
+	ws := []*idWriter{{}, {}}
+	var stops []context.CancelFunc
+	var errs [2]error
+	var wg sync.WaitGroup
+	for i, s := range subs {
+		cctx, stop := context.WithCancel(context.WithValue(context.Background(), hkTenant{}, s.Tenant))
+		stops = append(stops, stop)
+		c := resolve.NewContext(cctx)
+		if s.Sync {
+			wg.Add(1)
+			go func(i int, s hkSub) {
+				defer wg.Done()
+				errs[i] = r.ResolveGraphQLSubscription(c, hkPlan(s.Input, src), ws[i])
+			}(i, s)
+		} else {
+			errs[i] = r.AsyncResolveGraphQLSubscription(c, hkPlan(s.Input, src), ws[i], resolve.SubscriptionIdentifier{ConnectionID: resolve.ConnectionID(100 + i), SubscriptionID: 1})
+		}
+		synctest.Wait()
+	}
+	src.mu.Lock()
+	starts := append([]*hkStart(nil), src.starts...)
+	src.mu.Unlock()
+	for _, st := range starts {
+		st.up.Update([]byte(fmt.Sprintf(`{"data":{"v":"s%d"}}`, st.n)))
+		synctest.Wait()
+	}
+	for i, s := range subs {
+		stops[i]()
+		if !s.Sync {
+			_ = r.UnsubscribeSubscription(resolve.SubscriptionIdentifier{ConnectionID: resolve.ConnectionID(100 + i), SubscriptionID: 1})
+		}
+	}
+	synctest.Wait()
+	cancel()
+	wg.Wait()
+	synctest.Wait()
+
+	got := func(w *idWriter) []int {
+		var out []int
+		for _, m := range w.msgs {
+			var n int
+			if _, err := fmt.Sscanf(m, `{"data":{"v":"s%d"}}`, &n); err == nil {
+				out = append(out, n)
+			} else {
+				out = append(out, -1)
+			}
+		}
+		sort.Ints(out)
+		return out
+	}
+	ga, gb := got(ws[0]), got(ws[1])
+	fa, fb := string(hkRewrite(mode, []byte(a.Input), a.Tenant)), string(hkRewrite(mode, []byte(b.Input), b.Tenant))
+	rel := func(eq bool) string {
+		if eq {
+			return "equal"
+		}
+		return "different"
+	}
+	entry := "asynchronous entry point only"
+	if a.Sync || b.Sync {
+		entry = "synchronous entry point involved"
+	}
+	relation := fmt.Sprintf("inputs %s before the create hook and %s after it, %s", rel(a.Input == b.Input), rel(fa == fb), entry)
+	var sin []string
+	for _, st := range starts {
+		sin = append(sin, st.input)
+	}
+	obs := fmt.Sprintf("%d upstream start(s) with %v, first receives %v, second receives %v", len(starts), sin, ga, gb)
+	ep := func(s hkSub) string {
+		if s.Sync {
+			return "ResolveGraphQLSubscription"
+		}
+		return "AsyncResolveGraphQLSubscription"
+	}
+	pair := fmt.Sprintf("hook mode %d (1: drops x, 2: adds the tenant of the request context); first %s input %s tenant %s -> %s; second %s input %s tenant %s -> %s",
+		mode, ep(a), a.Input, a.Tenant, fa, ep(b), b.Input, b.Tenant, fb)
+	var fs []idFinding
+	if errs[0] != nil || errs[1] != nil {
+		// a synchronous call returns the resolver's context error at tear-down: only errors of the asynchronous call count
+		for i, s := range subs {
+			if !s.Sync && errs[i] != nil {
+				fs = append(fs, idFinding{clShare, "subscribe failed", fmt.Sprintf("%s: %v", pair, errs[i])})
+			}
+		}
+	}
+	if fa == fb {
+		if len(starts) != 1 || starts[0].input != fa || !reflect.DeepEqual(ga, []int{1}) || !reflect.DeepEqual(gb, []int{1}) {
+			fs = append(fs, idFinding{clShare, relation, fmt.Sprintf("%s: %s", pair, obs)})
+		}
+	} else {
+		switch {
+		case len(starts) != 2:
+			fs = append(fs, idFinding{clDiffer, relation, fmt.Sprintf("%s: %s", pair, obs)})
+		case starts[0].input != fa || starts[1].input != fb || !reflect.DeepEqual(ga, []int{1}) || !reflect.DeepEqual(gb, []int{2}):
+			fs = append(fs, idFinding{clOwn, relation, fmt.Sprintf("%s: %s", pair, obs)})
+		}
+	}
+	shared := "separate upstreams"
+	if len(starts) == 1 {
+		shared = "one shared upstream"
+	}
+	return relation + " -> " + shared, fs
+}
+
+func hookCases() (modes []int, subs []hkSub) {
+	modes = []int{0, 1, 2, 3}
+	for _, in := range []string{`{"t":"A","x":1}`, `{"t":"A","x":2}`, `{"t":"B","x":1}`} {
+		for _, tn := range []string{"T1", "T2"} {
+			subs = append(subs, hkSub{Input: in, Tenant: tn})
+		}
+	}
+	return
+}
+
+// hkCase decodes case number k into (mode, first, second).
+func hkCase(k int) (int, hkSub, hkSub) {
+	modes, subs := hookCases()
+	n := len(subs)
+	entry := k % 4
+	k /= 4
+	j := k % n
+	k /= n
+	i := k % n
+	k /= n
+	a, b := subs[i], subs[j]
+	a.Sync, b.Sync = entry&1 != 0, entry&2 != 0
+	return modes[k%len(modes)], a, b
+}
+
+func createHookPart(run *vk.Run, expired func() bool) {
+	modes, subs := hookCases()
+	total := len(modes) * len(subs) * len(subs) * 4
+	run.Bound("E2:hook_pair_cases(rewrite modes x ordered pairs x entry points)", total)
+	if run.Replay != "" {
+		var in struct {
+			Scenario string `json:"scenario"`
+			Case     int    `json:"case"`
+		}
+		if err := run.ReplayInput(&in); err != nil || in.Scenario != hkScen {
+			return
+		}
+		for i := 0; i < 5; i++ {
+			m, a, b := hkCase(in.Case)
+			out, fs := runHookPair(m, a, b)
+			fmt.Printf("replay %d: case %d: %s\n", i, in.Case, out)
+			for _, f := range fs {
+				fmt.Printf("  FAILED [%s] site=%q\n    %s\n", f.clause, f.site, f.detail)
+				run.Violate(vk.Violation{Clause: f.clause, Site: f.site, Class: "create hook rewrites the upstream input", Detail: f.detail})
+			}
+		}
+		run.Eval(5)
+		return
+	}
+	classes := map[string]int64{}
+	for k := 0; k < total; k++ {
+		if !run.Mine(int64(k)) {
+			continue
+		}
+		if expired() {
+			run.Cap("part E2 stopped by the internal deadline")
+			return
+		}
+		m, a, b := hkCase(k)
+		out, fs := runHookPair(m, a, b)
+		run.Eval(1)
+		run.Count("E2:cases", 1)
+		classes[out]++
+		run.Outcome(hkScen + " " + out)
+		for _, f := range fs {
+			ok := true
+			for n := 0; n < 5 && ok; n++ {
+				_, rfs := runHookPair(m, a, b)
+				hit := false
+				for _, g := range rfs {
+					if g.clause == f.clause && g.site == f.site {
+						hit = true
+					}
+				}
+				ok = hit
+			}
+			if !ok {
+				run.Count("unstable_violation_not_recorded", 1)
+				continue
+			}
+			run.Violate(vk.Violation{Clause: f.clause, Site: f.site, Class: "create hook rewrites the upstream input",
+				Detail: "part E2 (input-rewriting SubscriptionOnCreate hook, sync and async entry point): " + f.detail,
+				Input:  map[string]any{"scenario": hkScen, "case": k}})
+		}
+	}
+	var ks []string
+	for k := range classes {
+		ks = append(ks, k)
+	}
+	sort.Strings(ks)
+	for _, k := range ks {
+		run.Count("E2:outcome "+k, classes[k])
 	}
 }
